@@ -20,9 +20,9 @@ PROPS['C14'] = dict(
 
 PROPS['C12'] = dict(
   level='proof',
-  verus=[dict(unit='peephole', min_functions=18), dict(unit='pipeline', min_functions=1)],
+  verus=[dict(unit='peephole', min_functions=18), dict(unit='pipeline', min_functions=1), dict(unit='narrowc', min_functions=1)],
   not_decided=['A-invoke: the instruction-set meaning of Invoke/SuperInvoke is an axiom here (VM side: C03/C13)',
-               'A-delim: Call(n>0) is preceded by ArgumentDelimiter (emitted by Compiler::call, outside reach)',
+               'A-delim: Call(n>0) is preceded by ArgumentDelimiter — discharged for Compiler::call in the narrowc unit; Launch / invoke paths still assumed',
                'A-raw: locals/boxes/captures/module symbols modelled as a store separate from the operand stack'],
 )
 
@@ -32,7 +32,7 @@ _FINDINGS_VARIANT = _findings_variant(['apply_stack_effects', 'spec:handler_dept
 
 PROPS['C06'] = dict(
   level='proof',
-  verus=[dict(unit='peephole', min_functions=4), dict(unit='bytecode', min_functions=10), dict(unit='ops', min_functions=30), dict(unit='iterops', min_functions=2), dict(unit='pipeline', min_functions=1), _FINDINGS_VARIANT],
+  verus=[dict(unit='peephole', min_functions=4), dict(unit='bytecode', min_functions=10), dict(unit='ops', min_functions=30), dict(unit='iterops', min_functions=2), dict(unit='narrowc', min_functions=4), dict(unit='limitsc', min_functions=3), dict(unit='pipeline', min_functions=1), _FINDINGS_VARIANT],
   not_decided=['O-06.9 constants/locals/captures/cache indices in range: carried by Compiler methods outside reach',
                'A-shape: labels unique and dense, jump direction (compiler output shape) — assumed BY NAME at the composition point of peephole_compile (pipeline unit), not scattered over callers',
                'A-fiber: push_frame/ensure_stack reserve max_slots above the arguments (raw-pointer code, unverified)',
@@ -40,12 +40,12 @@ PROPS['C06'] = dict(
 )
 PROPS['C15'] = dict(
   level='proof',
-  verus=[dict(unit='peephole', min_functions=18), dict(unit='bytecode', min_functions=5), dict(unit='lines', min_functions=1), dict(unit='pipeline', min_functions=1), dict(unit='parserd', min_functions=5), dict(unit='resolverd', min_functions=2), dict(unit='scannerd', min_functions=9), _findings_variant(['apply_stack_effects'])],
+  verus=[dict(unit='peephole', min_functions=18), dict(unit='bytecode', min_functions=5), dict(unit='lines', min_functions=1), dict(unit='pipeline', min_functions=1), dict(unit='parserd', min_functions=5), dict(unit='resolverd', min_functions=2), dict(unit='scannerd', min_functions=9), dict(unit='narrowc', min_functions=4), dict(unit='limitsc', min_functions=4), _findings_variant(['apply_stack_effects'])],
   not_decided=['Compiler totality, the scanner keyword trie (identifier_type: str slicing) and its constructor, all of the resolver except for_ / while_ (resolverd unit), all of the parser except its loop-depth bookkeeping (parserd unit: loop_, break_, continue_, function, lambda, fun_body); REPL continuation'],
 )
 PROPS['C18'] = dict(
   level='proof',
-  verus=[dict(unit='bytecode', min_functions=10), dict(unit='peephole', min_functions=8), dict(unit='lines', min_functions=6), dict(unit='pipeline', min_functions=1), dict(unit='unwind', min_functions=2), dict(unit='scannerd', min_functions=6)],
+  verus=[dict(unit='bytecode', min_functions=10), dict(unit='peephole', min_functions=8), dict(unit='lines', min_functions=6), dict(unit='pipeline', min_functions=1), dict(unit='unwind', min_functions=2), dict(unit='scannerd', min_functions=6), dict(unit='parserd', min_functions=1)],
   not_decided=['the text of the traceback (frame_line / error_backtrace strings), exit-status mapping in Vm::run, exit(n)'],
 )
 PROPS['C04'] = dict(
@@ -67,7 +67,7 @@ PROPS['C01'] = dict(
 )
 PROPS['C02'] = dict(
   level='proof',
-  verus=[dict(unit='ops', min_functions=8), dict(unit='captures', min_functions=3), dict(unit='resolverd', min_functions=1), dict(unit='catchd', min_functions=1)],
+  verus=[dict(unit='ops', min_functions=8), dict(unit='captures', min_functions=3), dict(unit='resolverd', min_functions=1), dict(unit='catchd', min_functions=1), dict(unit='limitsc', min_functions=2)],
   explanation='the VM half only: the box / capture handlers and op_closure; the resolver and compiler half of the capture protocol is outside reach',
   not_decided=['which variables the resolver marks as captured, which CaptureIndex operands the compiler emits (resolve_capture / add_capture), fresh variables per loop iteration / call as a COMPILER property (EmptyBox / Box placement), name resolution (innermost declaration)',
                'A-shape preconditions of the handlers: a Local operand names a frame slot that holds a box, an Enclosing operand an existing capture; A-enc: the capture operand decodes to what the encoder wrote'],
@@ -153,7 +153,7 @@ PROPS['C11'] = dict(
 )
 PROPS['C17'] = dict(
   level='proof',
-  verus=[dict(unit='module', min_functions=7), dict(unit='imports', min_functions=3), dict(unit='ops', min_functions=3)],
+  verus=[dict(unit='module', min_functions=7), dict(unit='imports', min_functions=3), dict(unit='ops', min_functions=3), dict(unit='importpath', min_functions=1)],
   not_decided=['once-only execution of a module body needs import_module / load_missing_module (file system, PathBuf, compile) which are NOT under contract: the handlers are proved against an uninterpreted loader answer',
                'import path resolution (full_import_path string building: two paths must not collide), module_instance construction, the package tree',
                'A-std: hashbrown map/set behave as mathematical map/set (stubs in vx/units/module/prelude.rs)'],
